@@ -11,30 +11,36 @@
 
   clause                                              theorem(s)
   --------------------------------------------------  ------------------------------------------
-  never panics on any details/arguments (L1)          unpack_total_full (FALSE today, F15):
-                                                        unpack_total_full_fails, unpack_total_partial,
-                                                        unpack_panics_iff (exact guard),
-                                                        unpack_total_checked (the fixed code)
-  every bare assertion / unchecked index is known     sites_accounted, model_sites_in_table,
-                                                        model_sites_reachable
-  the receive loop never gets stuck (L3)              run_never_stuck_full (FALSE today, F16):
-                                                        run_never_stuck_full_fails (two witnesses),
-                                                        stuck_is_forever, run_never_stuck_partial
-                                                        (exact guard), run_can_always_be_unblocked
-  … nor in the invocation queue                       inv_queue_never_blocks_full (FALSE, F42):
+  never panics on any details/arguments (L1)          unpack_total (full strength since fix 652e15e);
+                                                        regression: unpack_old_code_panics
+  every bare assertion / unchecked index is known     sites_accounted, no_bare_site_left
+  the receive loop never gets stuck handing over a    run_never_stuck (full strength since fix 710325f:
+    reply (L3)                                          every schedule, duplicate replies included),
+                                                        run_can_always_be_unblocked, stuck_is_forever;
+                                                        regression: f16_witnesses_pass, f16_old_code_stuck
+  … nor for good in the invocation queue              repeated_final_invocation_dropped, enqueue_escapes
+                                                        (fix c166f26), regression: f42_witness_passes,
+                                                        f42_old_code_blocks; BY DESIGN (an assumption,
+                                                        not a finding) progressive chunks arriving faster
+                                                        than the handler takes them make the loop wait:
                                                         inv_queue_never_blocks_full_fails,
-                                                        inv_queue_blocked_until_handler_returns
-  Close() always returns                              close_returns_full (FALSE, F16):
-                                                        close_returns_full_fails, close_returns_partial
-  … and never panics                                  close_never_panics_full (FALSE, F41):
-                                                        close_never_panics_full_fails
+                                                        inv_queue_blocks_only_open_invocation (partial),
+                                                        inv_queue_wait_ends
+  Close() always returns                              close_returns (full strength)
+  only Close() closes the peer, once                  peer_closed_once (fix aee6f97); regression:
+                                                        f41_witness_passes, f41_old_code_panics
+  … and nothing panics                                STILL FALSE (open finding F43: a send concurrent
+                                                        with Close): no_panic_full_fails (witness),
+                                                        no_panic_partial (the only panic left is a send
+                                                        on the channel Close() has closed)
   Done() signalled once, on GOODBYE/ABORT/transport   done_signalled, session_end_closes_done,
     end                                                 goodbye_abort_end_session
 
   The L3 theorems are about the transition systems `Nexus.Client.R` / `Nexus.Client.I`, whose
   events are the atomic steps of the client's goroutines (every schedule is an event sequence),
-  instantiated with facts regenerated from client/*.go (`cfgToday`). Goroutine leaks are observed
-  by the family, not proved.
+  instantiated with facts regenerated from client/*.go (`R.cfgToday`, `({} : I.Cfg)`); reverting
+  a fix changes a regenerated fact and breaks the corresponding proof. Goroutine leaks are
+  observed by the family, not proved.
 -/
 import Nexus.Client.PptLemmas
 import Nexus.Client.RendezvousAll
@@ -45,239 +51,199 @@ open Nexus.Client Nexus.Gen
 
 /-! ## unpack_total -/
 
-/-- Full strength: for ANY details / arguments / decoder behaviour, none of the five functions
-    that touch router-supplied PPT data panics (instantiated with the regenerated fact
-    `pptChecked`: does client code still contain a bare site in the unpack functions). -/
-def unpack_total_full : Prop :=
-  ∀ (deser : Deser) (details : Dict) (args : List Val) (kw : Dict) (dealerPPT : Bool),
-    (unpackPPTPayload pptChecked deser details args).isPanic = false ∧
-    (unpackE2EEPayload pptChecked deser details args).isPanic = false ∧
-    (eventPpt pptChecked deser details args kw).isPanic = false ∧
-    (invocationPpt pptChecked deser details args kw).isPanic = false ∧
-    (prepareCallResult pptChecked deser dealerPPT details args kw).isPanic = false
+/-- The regenerated site table lists no bare assertion / unguarded index in the PPT code, and the
+    decoded payload pointer is nil-checked. -/
+theorem no_bare_site_left : PptFacts.gen.clean := gen_clean
 
-/-- The regenerated site table still lists bare sites in the unpack functions. -/
-theorem pptChecked_today : pptChecked = false := by decide
+/-- Full strength: for ANY details / arguments / decoder behaviour, none of the five functions that
+    touch router-supplied PPT data panics. -/
+theorem unpack_total (deser : Deser) (details : Dict) (args : List Val) (kw : Dict) (dealerPPT : Bool) :
+    (unpackPPTPayload PptFacts.gen deser details args).isPanic = false ∧
+    (unpackE2EEPayload PptFacts.gen deser details args).isPanic = false ∧
+    (eventPpt PptFacts.gen deser details args kw).isPanic = false ∧
+    (invocationPpt PptFacts.gen deser details args kw).isPanic = false ∧
+    (prepareCallResult PptFacts.gen deser dealerPPT details args kw).isPanic = false :=
+  ⟨unpackPPT_clean gen_clean .., unpackE2EE_clean gen_clean .., eventPpt_clean gen_clean ..,
+   invocationPpt_clean gen_clean .., prepareCallResult_clean gen_clean ..⟩
 
-/-- F15 witness: an EVENT (to a subscription with a handler) whose details carry
-    `ppt_scheme = "mqtt"` and which has no arguments. `runHandleEvent` → `unpackPPTPayload`
-    → `args[0]` → index out of range, in the `run` goroutine: the process dies. -/
-def f15Details : Dict := [(N.OptPPTScheme, .str "mqtt")]
+/-- Non-vacuity / what the fixed code answers on the former crash inputs: an error, no panic. -/
+example : (match eventPpt PptFacts.gen (fun _ _ => .err) [(N.OptPPTScheme, .str "mqtt")] [] [] with
+    | .ok (.dropped .serialization) => true
+    | _ => false) = true := by decide
 
-theorem f15_event_panics (deser : Deser) :
-    eventPpt false deser f15Details [] [] = .panic (siteText "unpackPPTPayload" "index" "args[0]") := by
-  rfl
-
-theorem unpack_total_full_fails : ¬ unpack_total_full := by
-  intro h
-  have := (h (fun _ _ => .err) f15Details [] [] true).2.2.1
-  rw [pptChecked_today, f15_event_panics] at this
-  exact absurd this (by decide)
-
-/-- The exact guard: today's code panics on precisely the inputs outside `pptSafe` / `e2eeSafe`
-    (`callerSafe` for the three callers). -/
-theorem unpack_panics_iff (deser : Deser) (details : Dict) (args : List Val) (kw : Dict) :
-    (unpackPPTPayload false deser details args).isPanic = !pptSafe deser details args ∧
-    (unpackE2EEPayload false deser details args).isPanic = !e2eeSafe details args ∧
-    (eventPpt false deser details args kw).isPanic = !callerSafe deser details args ∧
-    (invocationPpt false deser details args kw).isPanic = !callerSafe deser details args ∧
-    (prepareCallResult false deser true details args kw).isPanic = !callerSafe deser details args ∧
-    (prepareCallResult false deser false details args kw).isPanic = false :=
-  ⟨unpackPPT_panics_iff .., unpackE2EE_panics_iff .., eventPpt_panics_iff .., invocationPpt_panics_iff ..,
-   prepareCallResult_panics_iff .., prepareCallResult_noPPT ..⟩
-
-/-- Partial: under the guard nothing panics. -/
-theorem unpack_total_partial (deser : Deser) (details : Dict) (args : List Val) (kw : Dict) (dealerPPT : Bool)
-    (hp : pptSafe deser details args = true) (he : e2eeSafe details args = true)
-    (hc : callerSafe deser details args = true) :
-    (unpackPPTPayload pptChecked deser details args).isPanic = false ∧
-    (unpackE2EEPayload pptChecked deser details args).isPanic = false ∧
-    (eventPpt pptChecked deser details args kw).isPanic = false ∧
-    (invocationPpt pptChecked deser details args kw).isPanic = false ∧
-    (prepareCallResult pptChecked deser dealerPPT details args kw).isPanic = false := by
-  rw [pptChecked_today]
-  refine ⟨?_, ?_, ?_, ?_, ?_⟩
-  · rw [unpackPPT_panics_iff, hp]; rfl
-  · rw [unpackE2EE_panics_iff, he]; rfl
-  · rw [eventPpt_panics_iff, hc]; rfl
-  · rw [invocationPpt_panics_iff, hc]; rfl
-  · cases dealerPPT
-    · exact prepareCallResult_noPPT ..
-    · rw [prepareCallResult_panics_iff, hc]; rfl
-
-/-- Non-vacuity: a well-formed mqtt-scheme EVENT with a native payload meets all three guards. -/
-example : pptSafe (fun _ _ => .err) [(N.OptPPTScheme, .str "mqtt")] [.payload false [.int 1] []] = true ∧
-    callerSafe (fun _ _ => .err) [(N.OptPPTScheme, .str "mqtt")] [.payload false [.int 1] []] = true := by
-  decide
-
-example : e2eeSafe [(N.OptPPTScheme, .str "wamp"), (N.OptPPTSerializer, .str "cbor")] [.bin [0xa0]] = true := by
-  decide
-
-/-- The fixed code (every bare site checked) is total, for all inputs. -/
-theorem unpack_total_checked (deser : Deser) (details : Dict) (args : List Val) (kw : Dict) (dealerPPT : Bool) :
-    (unpackPPTPayload true deser details args).isPanic = false ∧
-    (unpackE2EEPayload true deser details args).isPanic = false ∧
-    (eventPpt true deser details args kw).isPanic = false ∧
-    (invocationPpt true deser details args kw).isPanic = false ∧
-    (prepareCallResult true deser dealerPPT details args kw).isPanic = false :=
-  ⟨unpackPPT_checked .., unpackE2EE_checked .., eventPpt_checked .., invocationPpt_checked ..,
-   prepareCallResult_checked ..⟩
+/-- Regression witness (F15): with the site table of the code before the fix (every site bare,
+    no nil check) the same EVENT — `ppt_scheme = "mqtt"`, no arguments — panics in `args[0]`. -/
+theorem unpack_old_code_panics (deser : Deser) :
+    eventPpt PptFacts.allBare deser [(N.OptPPTScheme, .str "mqtt")] [] [] =
+      .panic (siteText "unpackPPTPayload" "index" "args[0]") := by rfl
 
 /-! ## sites_accounted -/
 
 /-- Every bare type assertion and every unchecked index in client/*.go (regenerated table) is in
-    the hand-written account: modelled as a panic, unreachable, or application-supplied. -/
+    the hand-written account: guarded by a length check, bounded by a range loop, or
+    application-supplied. A new bare site breaks this theorem. -/
 theorem sites_accounted : ∀ s ∈ Client.sites, siteAccounted s = true := by decide
-
-/-- Conversely every panic the model can raise is a row of the regenerated table (or the nil
-    dereference, which the syntactic extractor does not list). -/
-theorem model_sites_in_table : ∀ p ∈ modelSites, modelSiteInTable p = true := by decide
-
-/-- …and each is reachable: a concrete hostile input for every model site. -/
-theorem model_sites_reachable :
-    unpackPPTPayload false (fun _ _ => .err) [(N.OptPPTSerializer, .int 1)] [] =
-      .panic (siteText "unpackPPTPayload" "assert" "pptSerializerStr.(string)") ∧
-    unpackPPTPayload false (fun _ _ => .err) [] [] =
-      .panic (siteText "unpackPPTPayload" "index" "args[0]") ∧
-    unpackPPTPayload false (fun _ _ => .err) [(N.OptPPTSerializer, .str "json")] [.str "x"] =
-      .panic (siteText "unpackPPTPayload" "assert" "args[0].([]byte)") ∧
-    unpackPPTPayload false (fun _ _ => .err) [] [.dict []] =
-      .panic (siteText "unpackPPTPayload" "assert" "args[0].(*wamp.PassthruPayload)") ∧
-    unpackPPTPayload false (fun _ _ => .nil) [(N.OptPPTSerializer, .str "json")] [.bin [110, 117, 108, 108]] =
-      .panic (siteText "unpackPPTPayload" "deref" nilDeref) ∧
-    unpackE2EEPayload false (fun _ _ => .err) [] [.bin []] =
-      .panic (siteText "unpackE2EEPayload" "assert" "details[wamp.OptPPTSerializer].(string)") ∧
-    unpackE2EEPayload false (fun _ _ => .err) [(N.OptPPTSerializer, .str "cbor")] [] =
-      .panic (siteText "unpackE2EEPayload" "index" "args[0]") ∧
-    unpackE2EEPayload false (fun _ _ => .err) [(N.OptPPTSerializer, .str "cbor")] [.int 0] =
-      .panic (siteText "unpackE2EEPayload" "assert" "args[0].([]byte)") := by
-  refine ⟨?_, ?_, ?_, ?_, ?_, ?_, ?_, ?_⟩ <;> rfl
 
 /-! ## run_never_stuck -/
 
-open Nexus.Client.R in
-/-- Full strength: in no reachable state of the rendezvous is the receive loop blocked for good. -/
-def run_never_stuck_full : Prop :=
-  ∀ evs st, R.steps R.cfgToday {} evs = some st → ¬ R.RunStuck R.cfgToday st
+/-- Full strength: in no reachable state of the rendezvous — whatever the schedule, whatever the
+    router sent (duplicate replies, replies at the instant a timer fires) — is the receive loop
+    blocked for good in `runSignalReply`. -/
+theorem run_never_stuck (evs : List R.Ev) (st : R.State) (_h : R.steps R.cfgToday {} evs = some st) :
+    ¬ R.RunStuck R.cfgToday st := by
+  rintro ⟨h, _⟩
+  rw [R.today_escapes] at h
+  cases h
 
-/-- F16, witness 1 (`Witness.f16`): SUBSCRIBE; the response timer fires; SUBSCRIBED arrives and
-    `run` looks the waiter up before the waiter has deleted its entry; the waiter deletes the
-    entry and returns ErrReplyTimeout; `run` stays in `w <- msg` for ever.
-    Witness 2 (`Witness.f16dup`): the router answers one SUBSCRIBE twice; `run` hands over the
-    first, looks up the second before the waiter has deleted its entry, and blocks. -/
-theorem run_never_stuck_full_fails : ¬ run_never_stuck_full := by
-  intro h
-  obtain ⟨st, hst, hb⟩ := R.exists_of_map R.f16_runs
-  exact h _ st hst (R.stuck_of_stuckB _ st hb)
+/-- … and that is not a matter of definition: from every reachable state in which nothing has
+    crashed and the send side is open, the loop can be brought back to its select by steps of the
+    goroutines it waits for (for a waiter that has gone: its own exit path, which closes `gone`). -/
+theorem run_can_always_be_unblocked (st : R.State) (hr : R.Reachable R.cfgToday st)
+    (hc : st.crashed = none) (hsc : st.sendClosed = false) :
+    ∃ evs, (R.steps R.cfgToday st evs).map R.quietB = some true :=
+  R.unblock_run R.cfgToday st (R.inv_reachable _ st hr) hc hsc R.today_ppt R.today_abort
+    (by rintro ⟨h, _⟩; rw [R.today_escapes] at h; cases h)
 
-theorem run_never_stuck_dup_witness :
-    ∃ st, R.steps R.cfgToday {} Witness.f16dup = some st ∧ R.RunStuck R.cfgToday st := by
-  obtain ⟨st, hst, hb⟩ := R.exists_of_map R.f16dup_runs
-  exact ⟨st, hst, R.stuck_of_stuckB _ st hb⟩
-
-/-- `RunStuck` really is "for good": no event of the loop is enabled, and whatever the other
-    goroutines, timers, the router and Close do afterwards, it stays that way. -/
+/-- What `RunStuck` means (for any configuration): no event of the loop is enabled, and whatever
+    the other goroutines, timers, the router and Close do afterwards, it stays that way. -/
 theorem stuck_is_forever (cfg : R.Cfg) (st : R.State) (hs : R.RunStuck cfg st) :
     (∀ ev, ev.isRun = true → R.step cfg st ev = none) ∧
     (∀ evs st', R.steps cfg st evs = some st' → R.RunStuck cfg st') :=
   ⟨fun ev he => R.stuck_no_run_step cfg st ev hs he, fun evs st' h => R.stuck_forever cfg st evs st' hs h⟩
 
-/-- Partial, with the exact guard: along every event sequence in which (1) no response timer
-    fires for a waiter the loop is already sending to and (2) the loop never takes a reply whose
-    waiter has left its select but not yet deleted its entry (`R.racy`), the loop is never stuck. -/
-theorem run_never_stuck_partial (cfg : R.Cfg) (evs : List R.Ev) (st : R.State)
-    (h : R.stepsGuarded cfg {} evs = some st) : ¬ R.RunStuck cfg st :=
-  R.never_stuck_guarded cfg evs st h
+/-- Regression witnesses (F16) on today's code: the reply arriving as its waiter times out, and
+    the duplicate reply, end with the loop taking the `gone` case and Close() returning. -/
+theorem f16_witnesses_pass :
+    (R.steps R.cfgToday {} (Witness.f16 ++ Witness.f16Tail)).map R.closedOK = some true ∧
+    (R.steps R.cfgToday {} (Witness.f16dup ++ Witness.f16Tail)).map R.closedOK = some true :=
+  ⟨R.f16_fixed, R.f16dup_fixed⟩
 
-/-- Non-vacuity: an ordinary exchange (subscribe, reply, hand-over, return) passes the guard. -/
-example : (R.stepsGuarded {} {} [.apiStart 1 .subscribe "t" false, .apiWait 1, .inject (.subscribed 1 5), .runRecv,
-    .deliver, .finish 1]).map (fun st => (match (st.ws 1).phase with | .returned _ => true | _ => false)) =
-    some true := by decide
-
-/-- With the proposed fix (`signalEscapes`: the select in `runSignalReply` also watches a channel
-    the waiter closes when it leaves) the loop is never stuck, whatever the schedule. -/
-theorem run_never_stuck_fixed (cfg : R.Cfg) (hfix : cfg.signalEscapes = true) (st : R.State) :
-    ¬ R.RunStuck cfg st := by
-  rintro ⟨h, _⟩; rw [hfix] at h; cases h
-
-/-- Whenever the loop is not stuck for good it can be brought back to its select by steps of the
-    goroutines it waits for — so `RunStuck` is exactly "blocked for good". -/
-theorem run_can_always_be_unblocked (st : R.State) (hr : R.Reachable R.cfgToday st)
-    (hc : st.crashed = none) (hsc : st.sendClosed = false) (hns : ¬ R.RunStuck R.cfgToday st) :
-    ∃ evs, (R.steps R.cfgToday st evs).map R.quietB = some true :=
-  R.unblock_run R.cfgToday st (R.inv_reachable _ st hr) hc hsc R.today_no_escape hns
+/-- … whereas with the two-way select of before the fix both leave the loop stuck for good. -/
+theorem f16_old_code_stuck :
+    (∃ st, R.steps R.cfgOld {} Witness.f16 = some st ∧ R.RunStuck R.cfgOld st) ∧
+    (∃ st, R.steps R.cfgOld {} Witness.f16dup = some st ∧ R.RunStuck R.cfgOld st) := by
+  obtain ⟨s1, h1, b1⟩ := R.exists_of_map R.f16_old_stuck
+  obtain ⟨s2, h2, b2⟩ := R.exists_of_map R.f16dup_old_stuck
+  exact ⟨⟨s1, h1, R.stuck_of_stuckB _ s1 b1⟩, ⟨s2, h2, R.stuck_of_stuckB _ s2 b2⟩⟩
 
 /-! ## the invocation queue -/
 
-/-- Full strength: the loop is never blocked in `handlerQueue <- msg`. -/
+/-- A further INVOCATION for a live worker whose final (non-progressive) message was already
+    received — a repeat from the router — is dropped: the state does not change. -/
+theorem repeated_final_invocation_dropped (st : I.State) (i : I.Inv) (w : Nat)
+    (hl : I.findLive st i.reg i.req st.n = some w) (hf : (st.ws w).final = true) :
+    I.accept {} st i = st.emit (.repeated i.req) :=
+  I.repeated_final_dropped {} st i w I.today_final_gate hl hf
+
+/-- The wait for room in a worker's queue ends as soon as that worker's context has ended or the
+    session has stopped receiving (which Close() forces after its grace period). -/
+theorem enqueue_escapes (st : I.State) (w : Nat) (i : I.Inv) (hc : st.crashed = none)
+    (hp : st.pendingSend = some (w, i)) (hx : (st.ws w).ctx.isSome = true ∨ st.recvDone = true) :
+    ∃ st', I.step {} st .queueSendAbandon = some st' ∧ st'.pendingSend = none :=
+  I.enqueue_escapes {} st w i I.today_enqueue_escapes hc hp hx
+
+/-- Regression witness (F42) on today's code: three INVOCATIONs with one request id while the
+    handler runs the first — the repeats are dropped, the loop is free, one worker. -/
+theorem f42_witness_passes :
+    ((I.steps {} {} Witness.dupInv).map fun st => st.pendingSend.isNone && st.n == 1) = some true :=
+  I.dupInv_fixed
+
+theorem f42_old_code_blocks :
+    ((I.steps { finalGate := false } {} Witness.dupInv).map fun st => st.pendingSend.isSome) = some true :=
+  I.dupInv_old_blocks
+
+/-- Full strength "the loop never waits in `handlerQueue <- msg`" … -/
 def inv_queue_never_blocks_full : Prop :=
   ∀ evs st, I.steps {} {} evs = some st → st.pendingSend = none
 
-/-- F42 (`Witness.dupInv`): three INVOCATIONs with one request id while the handler runs the
-    first: the second fills the queue (capacity 1), the third blocks the loop. -/
+/-- … is false BY DESIGN, not as a defect: progressive chunks of one invocation arriving faster
+    than the application's handler takes them fill the one-slot queue and the loop waits
+    (back-pressure; `Witness.progChunks`). This is an assumption of C17 (handlers of progressive
+    invocations keep up or honour their context), not a finding. -/
 theorem inv_queue_never_blocks_full_fails : ¬ inv_queue_never_blocks_full := by
   intro h
-  cases hs : I.steps {} {} Witness.dupInv with
-  | none => have := I.dupInv_blocks; rw [hs] at this; simp at this
+  cases hs : I.steps {} {} Witness.progChunks with
+  | none => have := I.progChunks_block; rw [hs] at this; simp at this
   | some st =>
-    have hb := I.dupInv_blocks
+    have hb := I.progChunks_block
     rw [hs] at hb
     have := h _ st hs
     simp [this] at hb
 
-/-- … and it stays blocked until the application's handler returns: an INTERRUPT that would end
-    a handler waiting for its context is behind the blocked message and is never read. -/
-theorem inv_queue_blocked_until_handler_returns (cfg : I.Cfg) (st : I.State) (ev : I.Ev) (st' : I.State)
+/-- Partial: the loop only ever comes to wait behind an invocation that is still open (its final
+    message not yet received) and whose worker is live … -/
+theorem inv_queue_blocks_only_open_invocation (st : I.State) (i : I.Inv) (w : Nat) (j : I.Inv)
+    (hp : st.pendingSend = none) (h : (I.accept {} st i).pendingSend = some (w, j)) :
+    (st.ws w).final = false ∧ (st.ws w).live = true :=
+  I.blocks_only_on_open_invocation {} st i w j I.today_final_gate hp h
+
+/-- … and while it waits, only the return of that worker's handler or the escapes of the select
+    (`enqueue_escapes`) end the wait. -/
+theorem inv_queue_wait_ends (cfg : I.Cfg) (st : I.State) (ev : I.Ev) (st' : I.State)
     (w : Nat) (i j : I.Inv) (hp : st.pendingSend = some (w, i))
     (hfull : ¬ (st.ws w).queue.length < cfg.queueCap) (hrun : (st.ws w).inner = .running j)
-    (hev : ∀ r d, ev ≠ .handlerReturn w r d) (h : I.step cfg st ev = some st') :
+    (hev : ∀ r d, ev ≠ .handlerReturn w r d) (hev2 : ev ≠ .queueSendAbandon) (h : I.step cfg st ev = some st') :
     st'.pendingSend = some (w, i) ∧ ¬ (st'.ws w).queue.length < cfg.queueCap ∧ (st'.ws w).inner = .running j :=
-  I.queue_blocked_until_handler_returns cfg st ev st' w i j hp hfull hrun hev h
+  I.queue_blocked_until_handler_returns cfg st ev st' w i j hp hfull hrun hev hev2 h
 
 /-! ## close_returns -/
 
-/-- Full strength: from every reachable state some continuation lets Close() return. -/
-def close_returns_full : Prop :=
-  ∀ evs st, R.steps R.cfgToday {} evs = some st → st.crashed = none →
-    ∃ evs' st', R.steps R.cfgToday st evs' = some st' ∧ st'.close = .returned
-
-/-- F16 again: after the wedge (witness above, which goes on to call Close: GOODBYE, the router's
-    GOODBYE is never read, EndRecv, `<-c.Done()`) no continuation whatsoever lets Close return,
-    and Done() is never signalled. -/
-theorem close_returns_full_fails : ¬ close_returns_full := by
-  intro h
-  obtain ⟨st, hst, hb⟩ := R.exists_of_map R.f16_runs
-  have hs := R.stuck_of_stuckB _ st hb
-  have hcr : st.crashed = none := by
-    have : (R.steps R.cfgToday {} Witness.f16).map (fun s => s.crashed.isNone) = some true := by decide
-    rw [hst] at this
-    simpa using this
-  obtain ⟨evs', st', h1, h2⟩ := h _ st hst hcr
-  exact (R.stuck_close_never_returns _ st ⟨_, hst⟩ hs evs' st' h1).2 h2
-
-/-- Partial: from every reachable state in which the loop is not stuck for good, nothing crashed
-    and the send side is still open, Close() can return (handlers return, workers finish). -/
-theorem close_returns_partial (st : R.State) (hr : R.Reachable R.cfgToday st) (hc : st.crashed = none)
-    (hsc : st.sendClosed = false) (hns : ¬ R.RunStuck R.cfgToday st) :
+/-- Full strength: from every reachable state in which nothing has crashed, some continuation lets
+    Close() return (the application's handlers return, the workers finish). -/
+theorem close_returns (st : R.State) (hr : R.Reachable R.cfgToday st) (hc : st.crashed = none) :
     ∃ evs st', R.steps R.cfgToday st evs = some st' ∧ st'.close = .returned ∧ st'.crashed = none :=
-  R.close_can_return R.cfgToday st hr hc hsc R.today_no_escape hns
+  R.close_can_return R.cfgToday R.today_ppt R.today_abort st hr hc
+    (by rintro ⟨h, _⟩; rw [R.today_escapes] at h; cases h)
 
-/-- Full strength: no API call or Close() ever panics, whatever the router sent before. -/
-def close_never_panics_full : Prop :=
-  ∀ cfg evs st, R.steps cfg {} evs = some st → st.crashed = none
+/-- Only `Close()` closes the peer, as its last act: the send side is closed exactly when Close()
+    has returned (no second close, no close from the ABORT path). -/
+theorem peer_closed_once (st : R.State) (hr : R.Reachable R.cfgToday st) (h : st.sendClosed = true) :
+    st.close = .returned :=
+  (R.invClose_reachable R.cfgToday R.today_ppt R.today_abort st hr).1 h
 
-/-- F41 (`Witness.pptAbort`): the router (which did not announce payload passthru) answers a CALL
-    with a RESULT carrying `ppt_scheme`; Call sends ABORT and closes the session's send side;
-    Close() then sends GOODBYE on the closed channel. -/
-theorem close_never_panics_full_fails : ¬ close_never_panics_full := by
+/-- Regression witness (F41) on today's code: RESULT with `ppt_scheme` from a router that did not
+    announce PPT, then Close(): ABORT, EndRecv, the loop exits, Close() returns, no panic. -/
+theorem f41_witness_passes :
+    (R.steps Witness.pptAbortCfg {} Witness.pptAbort).map R.closedOK = some true := R.pptAbort_fixed
+
+theorem f41_old_code_panics :
+    ((R.steps { Witness.pptAbortCfg with abortClosesSend := true } {}
+      [.apiStart 1 .call "p1" false, .apiWait 1, .inject (.result 1 [(N.OptPPTScheme, .str "x_a")] [] []),
+       .runRecv, .deliver, .finish 1, .closeStart]).map (·.crashed)) = some (some "send on closed channel") :=
+  R.pptAbort_old_crashes
+
+/-! ## no panic — still open: F43 -/
+
+/-- Full strength: no API call, no goroutine of the client and no Close() ever panics. -/
+def no_panic_full : Prop :=
+  ∀ evs st, R.steps R.cfgToday {} evs = some st → st.crashed = none
+
+/-- Open finding F43 (`Witness.closeRace`): a Call is waiting; Close() completes and closes the
+    send channel; the Call's context ends and its goroutine takes the ctx.Done branch before it
+    sees Done(): CANCEL goes to the closed channel. (The same happens to any goroutine blocked in
+    a send when Close() closes the channel.) -/
+theorem no_panic_full_fails : ¬ no_panic_full := by
   intro h
-  cases hs : R.steps Witness.pptAbortCfg {} Witness.pptAbort with
-  | none => have := R.pptAbort_runs; rw [hs] at this; simp at this
+  cases hs : R.steps R.cfgToday {} Witness.closeRace with
+  | none => have := R.closeRace_crashes; rw [hs] at this; simp at this
   | some st =>
-    have hb := R.pptAbort_runs
+    have hb := R.closeRace_crashes
     rw [hs] at hb
-    have := h _ _ st hs
+    have := h _ st hs
     simp [this] at hb
+
+/-- Partial, with the exact guard: the ONLY panic left in the model is a send on the channel that
+    Close() has closed — in particular nothing the router sends makes the client panic before
+    Close() has returned. -/
+theorem no_panic_partial (st : R.State) (hr : R.Reachable R.cfgToday st) (s : String)
+    (h : st.crashed = some s) : s = "send on closed channel" ∧ st.sendClosed = true ∧ st.close = .returned := by
+  have hi := R.invClose_reachable R.cfgToday R.today_ppt R.today_abort st hr
+  obtain ⟨h1, h2⟩ := hi.2 s h
+  exact ⟨h1, h2, hi.1 h2⟩
+
+/-- Non-vacuity: a reachable crashed state exists (the F43 witness). -/
+example : ((R.steps R.cfgToday {} Witness.closeRace).map fun st => st.crashed.isSome && st.sendClosed) = some true := by
+  decide
 
 /-! ## done_signalled -/
 
